@@ -53,14 +53,18 @@ func (f *Frame) heapWF(name, h, alloc string) {
 	}
 	switch name {
 	case "H_ptr":
-		f.ctx.Fact(fmt.Sprintf("(forall ((p Ptr)) (! (or (= (select %s p) nil) (< (pobj (select %s p)) %s)) :pattern ((select %s p))))", h, h, alloc, h))
+		f.ctx.Fact(fmt.Sprintf("(forall ((p Ptr)) (! (or (= (select %s p) nil) (and (< (pobj (select %s p)) %s) (not (islocalobj (pobj (select %s p)))))) :pattern ((select %s p))))", h, h, alloc, h, h))
+	case "H_iface":
+		// a pointer boxed in a stored interface value refers to an allocated object (for values of
+		// other dynamic types unbox_Ptr is unconstrained, so this says nothing about them)
+		f.ctx.Fact(fmt.Sprintf("(forall ((p Ptr)) (! (or (= (unbox_Ptr (ival (select %s p))) nil) (and (< (pobj (unbox_Ptr (ival (select %s p)))) %s) (not (islocalobj (pobj (unbox_Ptr (ival (select %s p)))))))) :pattern ((select %s p))))", h, h, alloc, h, h))
 	case "H_slice":
 		f.ctx.Fact(fmt.Sprintf("(forall ((p Ptr)) (! (or (= (sbase (select %s p)) nil) (< (pobj (sbase (select %s p))) %s)) :pattern ((select %s p))))", h, h, alloc, h))
 	default:
 		// pointer-valued maps: every stored pointer refers to an allocated object
 		if strings.HasPrefix(name, "Mval|") && strings.HasSuffix(name, "|Ptr") {
 			ks := strings.Split(name, "|")[1]
-			f.ctx.Fact(fmt.Sprintf("(forall ((m Ptr) (k %s)) (! (or (= (select (select %s m) k) nil) (< (pobj (select (select %s m) k)) %s)) :pattern ((select (select %s m) k))))", ks, h, h, alloc, h))
+			f.ctx.Fact(fmt.Sprintf("(forall ((m Ptr) (k %s)) (! (or (= (select (select %s m) k) nil) (and (< (pobj (select (select %s m) k)) %s) (not (islocalobj (pobj (select (select %s m) k)))))) :pattern ((select (select %s m) k))))", ks, h, h, alloc, h, h))
 		}
 		// slice-valued maps: the backing array of every stored slice is allocated
 		if strings.HasPrefix(name, "Mval|") && strings.HasSuffix(name, "|Slice") {
@@ -111,6 +115,7 @@ type Frame struct {
 	lockSnaps    map[string]*State
 	lastLockSnap *State
 	callSnaps    map[string]*State // state before call sites carrying asserts (atcall)
+	immCells     []immCell         // assigned-once local variable cells (top-level frame)
 	lastLockReach string
 	csCount   map[string]int
 	noopFuncs map[string]bool
@@ -1007,7 +1012,28 @@ func (f *Frame) havocState(st *State, w *WriteSet, why string) *State {
 	for _, hn := range changed {
 		f.heapWF(hn, out.heaps[hn], na)
 	}
+	if f.top != nil {
+		for _, c := range f.top.immCells {
+			for _, lf := range leaves(c.typ) {
+				if _, ok := lf.typ.Underlying().(*types.Array); ok {
+					continue
+				}
+				hn := heapName(lf.typ)
+				a := addrPath(c.addr, lf.path)
+				hb, ha := f.heap(st, hn), f.heap(out, hn)
+				if hb != ha {
+					f.ctx.Fact(fmt.Sprintf("(= (select %s %s) (select %s %s))", ha, a, hb, a))
+				}
+			}
+		}
+	}
 	return out
+}
+
+// immCell: the address and type of an assigned-once local variable cell.
+type immCell struct {
+	addr string
+	typ  types.Type
 }
 
 // frameFacts relates a havocked state to the state before: among objects
@@ -1171,6 +1197,16 @@ func (f *Frame) loopInvariants(l *loop) []Clause {
 		if fc := f.eng.contractFor(f.fn); fc != nil {
 			if ls := fc.Loops[fmt.Sprint(l.ordinal)]; ls != nil {
 				return ls.Invariants
+			}
+		}
+		// a closure of the function under contract, executed inline: `loop $1.2 invariant ...`
+		// in the enclosing function's contract names loop 2 of closure $1
+		if top := f.top; top != nil && top.contract != nil && f.fn.Parent() != nil {
+			tn, cn := FuncName(top.fn), FuncName(f.fn)
+			if strings.HasPrefix(cn, tn+"$") {
+				if ls := top.contract.Loops[cn[len(tn):]+"."+fmt.Sprint(l.ordinal)]; ls != nil {
+					return ls.Invariants
+				}
 			}
 		}
 		return nil
